@@ -665,6 +665,7 @@ func TestVerifC41Unauth(t *testing.T) {
 		}
 
 		lastNonce := map[int]string{}
+		var usedToks []string
 		doAuth := func(ci int) {
 			k := conns[ci]
 			var cred, kind string
@@ -698,9 +699,20 @@ func TestVerifC41Unauth(t *testing.T) {
 				}
 				cred = hashOver("fred", old, "123")
 				valid = old == k.nonce && k.nonce != ""
-			case 5, 6: // an outstanding token
+			case 6: // a token that was already used (or expired)
+				kind = "used-token"
+				if len(usedToks) > 0 {
+					cred = usedToks[r.Intn(len(usedToks))]
+					if _, again := toks[cred]; again {
+						valid = true
+					}
+				} else {
+					cred = "fedcba9876543210"
+				}
+			case 5: // an outstanding token
 				kind = "token"
-				for tk, ti := range toks {
+				for _, tk := range v41keys(toks) {
+					ti := toks[tk]
 					cred = tk
 					valid = true
 					kind = "token-minted-by-authed"
@@ -754,8 +766,33 @@ func TestVerifC41Unauth(t *testing.T) {
 			if res {
 				if isTok {
 					delete(toks, cred)
+					usedToks = append(usedToks, cred)
 				}
 				k.authed = true
+				if isTok {
+					// token_single_use: the same token on another unauthenticated connection
+					for cj, k2 := range conns {
+						if cj == ci || k2.authed || k2.dead {
+							continue
+						}
+						ok2, rest2, closed2 := k2.request(r, 1, (&v41msg{}).byte_(byte(commands.Auth)).str(cred).b, true)
+						if closed2 {
+							break
+						}
+						res2 := ok2 && len(rest2) == 1 && rest2[0] == 1
+						tr.Q(fmt.Sprintf("auth %d %s", cj, lib.X(cred)), lib.B(res2))
+						tr.Count("auth:token-reuse:" + lib.B(res2))
+						if k2.nonce != "" {
+							lastNonce[cj] = k2.nonce
+						}
+						k2.nonce = ""
+						if res2 {
+							k2.authed = true
+							tr.Fail("auth-without-credentials:token-reused", fmt.Sprintf("token %x authenticated connection %d and then again connection %d", cred, ci, cj))
+						}
+						break
+					}
+				}
 				if !(valid && (kind == "valid" || kind == "stale-nonce")) && !tokenOK {
 					// concrete consequence: read the secret table
 					_, row, _ := k.request(r, 1, (&v41msg{}).byte_(byte(commands.GetOne)).byte_('+').int_(0).
@@ -768,6 +805,23 @@ func TestVerifC41Unauth(t *testing.T) {
 				if valid && (kind == "valid" || tokenOK) {
 					tr.Fail("valid-credential-rejected", fmt.Sprintf("Auth(%x) kind %s returned false", cred, kind))
 				}
+				// nonce_single_use: the failed attempt consumed the nonce; the right hash over
+				// that same nonce must not be accepted afterwards
+				if old := lastNonce[ci]; old != "" && r.Intn(2) == 0 {
+					c2 := hashOver("fred", old, "123")
+					ok2, rest2, closed2 := k.request(r, 1, (&v41msg{}).byte_(byte(commands.Auth)).str(c2).b, true)
+					if closed2 {
+						alive = false
+						return
+					}
+					res2 := ok2 && len(rest2) == 1 && rest2[0] == 1
+					tr.Q(fmt.Sprintf("auth %d %s", ci, lib.X(c2)), lib.B(res2))
+					tr.Count("auth:replay-consumed-nonce:" + lib.B(res2))
+					if res2 {
+						k.authed = true
+						tr.Fail("auth-without-credentials:consumed-nonce", fmt.Sprintf("connection %d: after a failed Auth, Auth with fred's hash over the already consumed nonce %x returned true", ci, old))
+					}
+				}
 				after := s.digest(conns, ci)
 				if before != after {
 					tr.Fail("unauth-effect:state:cmdAuth", "failed Auth changed state: "+before+" -> "+after)
@@ -778,9 +832,11 @@ func TestVerifC41Unauth(t *testing.T) {
 		doExpire := func() {
 			expireTokens()
 			expireNonces()
-			for tk, ti := range toks {
+			for _, tk := range v41keys(toks) {
+				ti := toks[tk]
 				if ti.old {
 					delete(toks, tk)
+					usedToks = append(usedToks, tk)
 				} else {
 					ti.old = true
 				}
@@ -853,7 +909,11 @@ func TestVerifC41Unauth(t *testing.T) {
 			case c < 16:
 				doAuth(ci)
 			case c < 18:
-				doToken(ci)
+				if r.Intn(3) == 0 && !conns[0].dead {
+					doToken(0)
+				} else {
+					doToken(ci)
+				}
 			case c < 19:
 				doExpire()
 			default:
@@ -878,6 +938,15 @@ func TestVerifC41Unauth(t *testing.T) {
 			time.Sleep(time.Millisecond)
 		}
 	}
+}
+
+func v41keys(m map[string]*v41tok) []string {
+	ks := make([]string, 0, len(m))
+	for k := range m {
+		ks = append(ks, k)
+	}
+	sort.Strings(ks)
+	return ks
 }
 
 func v41tail(b []byte, n int) string {
